@@ -9,6 +9,7 @@ mod bounded;
 mod hostile;
 mod features;
 mod truncation;
+mod bgzfseek;
 
 // Allocation cap for the hostile-input child processes: a single allocation request above ALLOC_CAP fails (-> Rust aborts with
 // "memory allocation of N bytes failed").  This makes "a few hundred input bytes ask for more than 1 GiB" a deterministic
